@@ -185,3 +185,90 @@
 
 (define-fun krb_dec_pt ((kt (_ BitVec 32)) (k BSeq) (u (_ BitVec 32)) (c BSeq)) BSeq
   (et_dec_pt (tag_of_etype kt) k u c))
+
+;; ---- string-to-key (property C08) ----
+;; PBKDF2 (RFC 2898) with the HMAC of hash constructor f: password, salt, iteration count, key length in bytes
+(declare-fun pbkdf2 (Int BSeq BSeq (_ BitVec 64) (_ BitVec 64)) BSeq)
+(assert (forall ((f Int) (p BSeq) (s BSeq) (i (_ BitVec 64)) (n (_ BitVec 64)))
+  (! (=> (bvsge n #x0000000000000000) (= (bseq.len (pbkdf2 f p s i n)) n)) :pattern ((pbkdf2 f p s i n)))))
+
+;; hexadecimal text <-> bytes (encoding/hex); decoding an encoding gives the bytes back
+(declare-fun hexdec (Str) BSeq)
+
+(declare-fun hexenc (BSeq) Str)
+(assert (forall ((b BSeq)) (! (= (hexdec (hexenc b)) b) :pattern ((hexenc b)))))
+(assert (forall ((b BSeq)) (! (= (strlen (hexenc b)) (bvadd (bseq.len b) (bseq.len b))) :pattern ((hexenc b)))))
+
+;; first four bytes of a sequence as a big-endian number
+(define-fun seqbe32val ((s BSeq)) (_ BitVec 32)
+  (concat (bseq.at s #x0000000000000000) (concat (bseq.at s #x0000000000000001) (concat (bseq.at s #x0000000000000002) (bseq.at s #x0000000000000003)))))
+
+;; RFC 3962 4: iteration count from the 4-octet parameter, 0 meaning 2^32
+(define-fun iters_3962 ((p Str)) (_ BitVec 64)
+  (ite (= (seqbe32val (hexdec p)) #x00000000) #x0000000100000000 ((_ zero_extend 32) (seqbe32val (hexdec p)))))
+
+;; RFC 8009 4: iteration count is the 4-octet parameter as an unsigned number
+(define-fun iters_8009 ((p Str)) (_ BitVec 64) ((_ zero_extend 32) (seqbe32val (hexdec p))))
+
+;; RFC 3962 4: tkey = random-to-key(PBKDF2(passphrase, salt, iter_count, keylength)); key = DK(tkey, "kerberos")
+(define-fun s2k_3962 ((t Int) (pw BSeq) (salt BSeq) (iter (_ BitVec 64))) BSeq
+  (et_dk t (et_r2k t (pbkdf2 fid.crypto.sha1.New pw salt iter (et_keybytes t))) seqlit.6b65726265726f73))
+
+;; RFC 8009 4: saltp = enctype-name | 0x00 | salt; tkey = random-to-key(PBKDF2(passphrase, saltp, iter_count, keylength));
+;; base-key = KDF-HMAC-SHA2(tkey, "kerberos", keylength)
+(define-fun s2k_8009 ((t Int) (pw BSeq) (saltp BSeq) (iter (_ BitVec 64))) BSeq
+  (et_dk t (et_r2k t (pbkdf2 (et_hashfn t) pw saltp iter (et_protokeybytes t))) seqlit.6b65726265726f73))
+
+;; RFC 3961 5.1: n-fold (uninterpreted here; the implementation is checked against an independent one by the bounded stand-in)
+(declare-fun nfold (BSeq (_ BitVec 64)) BSeq)
+
+;; RFC 3961 6.3.1: des3 string-to-key: DK(random-to-key(168-fold(passphrase | salt)), "kerberos")
+(define-fun s2k_des3 ((t Int) (pw BSeq) (salt BSeq)) BSeq
+  (et_dk t (des3_r2k (nfold (seqcat pw salt) #x00000000000000a8)) seqlit.6b65726265726f73))
+
+;; RFC 4757 2: the key is MD4 of the UTF-16LE encoding of the password; utf16le is the encoding function
+(declare-fun utf16le (BSeq) BSeq)
+
+(define-fun s2k_rc4 ((pw BSeq)) BSeq (hashf fid.golang.org.x.crypto.md4.New (utf16le pw)))
+
+;; string-to-key of an etype (RFC 3961 6.3.1, RFC 3962 4, RFC 8009 4, RFC 4757 2); params is the hex text of the
+;; 4-octet iteration count for the AES types
+(define-fun et_s2k ((t Int) (pw BSeq) (salt BSeq) (params Str)) BSeq
+  (ite (= t tid.crypto.Des3CbcSha1Kd) (s2k_des3 t pw salt)
+  (ite (or (= t tid.crypto.Aes128CtsHmacSha96) (= t tid.crypto.Aes256CtsHmacSha96)) (s2k_3962 t pw salt (iters_3962 params))
+  (ite (= t tid.crypto.Aes128CtsHmacSha256128)
+     (s2k_8009 t pw (seqcat (seqcat seqlit.6165733132382d6374732d686d61632d7368613235362d313238 (seqbyte #x00)) salt) (iters_8009 params))
+  (ite (= t tid.crypto.Aes256CtsHmacSha384192)
+     (s2k_8009 t pw (seqcat (seqcat seqlit.6165733235362d6374732d686d61632d7368613338342d313932 (seqbyte #x00)) salt) (iters_8009 params))
+  (s2k_rc4 pw))))))
+
+;; utf16le(pw): the UTF-16 code units of the runes of pw, each as two octets, low octet first (RFC 4757 2)
+(define-fun utf16units ((pw BSeq)) (Array (_ BitVec 64) (_ BitVec 16)) (utf16.arr (runes.arr pw) #x0000000000000000 (runes.len pw)))
+
+(define-fun utf16count ((pw BSeq)) (_ BitVec 64) (utf16.len (runes.arr pw) #x0000000000000000 (runes.len pw)))
+;; include-with: utf16le
+(assert (forall ((pw BSeq)) (! (= (bseq.len (utf16le pw)) (bvadd (utf16count pw) (utf16count pw))) :pattern ((utf16le pw)))))
+(assert (forall ((pw BSeq) (j (_ BitVec 64)))
+  (! (= (bseq.at (utf16le pw) j)
+        (ite (= ((_ extract 0 0) j) #b0) ((_ extract 7 0) (select (utf16units pw) (bvlshr j #x0000000000000001)))
+                                         ((_ extract 15 8) (select (utf16units pw) (bvlshr j #x0000000000000001)))))
+     :pattern ((bseq.at (utf16le pw) j)))))
+
+;; ---- PA-DATA carrying string-to-key information (RFC 4120 5.2.7.4 / 5.2.7.5): first entry of a decoded
+;; ETYPE-INFO2 / ETYPE-INFO sequence as uninterpreted functions of the encoded bytes (the ASN.1 decoder is trusted)
+(declare-fun eti2_n (BSeq) (_ BitVec 64))
+
+(declare-fun eti2_etype (BSeq) (_ BitVec 32))
+
+(declare-fun eti2_salt (BSeq) BSeq)
+
+(declare-fun eti2_s2kp (BSeq) BSeq)
+
+(declare-fun eti_n (BSeq) (_ BitVec 64))
+
+(declare-fun eti_etype (BSeq) (_ BitVec 32))
+
+(declare-fun eti_salt (BSeq) BSeq)
+
+;; default string-to-key parameters of an etype as text (what GetDefaultStringToKeyParams returns)
+(declare-fun et_defparams (Int) Str)
